@@ -215,6 +215,9 @@ def extra_oracles(rng, tier):
         "abort304": lambda: abort(304), "abort404": lambda: abort(404), "abort500": lambda: abort(500),
         "abort418": lambda: abort(418), "abort0": lambda: abort(0), "raise": lambda: 1 / 0,
         "resp299": lambda: Response(b"hello", status_code=203),
+        "resp204body": lambda: Response(b"must not be sent", status_code=204),
+        "resp304body": lambda: Response("nor this", status_code=304, headers={"ETag": '"x"'}),
+        "tuple204": lambda: ("body", "text/plain", None, 204),
         "empty": lambda: "", "tuple": lambda: ("ab", "text/plain", {"X-A": "b"}, 202),
     }
     violations = []
